@@ -19,23 +19,23 @@ theorem C05_edges (fs : List Face) :
       (edges fs)[3 * i + 1]? = some (fs[i].2.1, fs[i].2.2) ∧
       (edges fs)[3 * i + 2]? = some (fs[i].2.2, fs[i].1)) ∧
     (∀ k, k < 3 * fs.length → (edgesFace fs)[k]? = some (k / 3)) := by
-  sorry
+  exact ⟨edges_length fs, edgesFace_length fs, edges_getElem? fs, edgesFace_getElem? fs⟩
 
 /-- **face adjacency = counting definition**: `((f, g), e)` is reported iff `f < g`, the sorted
     edge `e` occurs exactly twice among all sorted edges, once in face `f` and once in face `g` -/
 theorem C05_adjacency (fs : List Face) (f g : Nat) (e : Edge) :
     ((f, g), e) ∈ faceAdjacency fs ↔
       f < g ∧ (edgesSorted fs).count e = 2 ∧ e ∈ faceEdges fs f ∧ e ∈ faceEdges fs g := by
-  sorry
+  exact mem_faceAdjacency fs f g e
 
 /-- adjacency rows are not repeated -/
 theorem C05_adjacency_nodup (fs : List Face) : (faceAdjacency fs).Nodup := by
-  sorry
+  exact faceAdjacency_nodup fs
 
 /-- **watertight ⇔ every sorted edge occurs exactly twice** -/
 theorem C05_watertight (fs : List Face) :
     isWatertight fs = true ↔ ∀ e ∈ edgesSorted fs, (edgesSorted fs).count e = 2 := by
-  sorry
+  exact isWatertight_iff fs
 
 /-- **winding consistent ⇔ each edge that occurs exactly twice is traversed in opposite directions**
     (for the pair `i < j` of its occurrences: end of the first = start of the second) -/
@@ -45,21 +45,21 @@ theorem C05_winding (fs : List Face) :
         (edgesSorted fs)[i]? = (edgesSorted fs)[j]? →
         (edgesSorted fs).count ((edgesSorted fs).getD i (0, 0)) = 2 →
         ((edges fs).getD i (0, 0)).2 = ((edges fs).getD j (0, 0)).1 := by
-  sorry
+  exact isWindingConsistent_iff fs
 
 /-- unique edges are exactly the distinct sorted edges, each once; the inverse reconstructs -/
 theorem C05_edges_unique (fs : List Face) :
     (edgesUnique fs).Nodup ∧ (∀ e, e ∈ edgesUnique fs ↔ e ∈ edgesSorted fs) ∧
     (∀ i, i < (edgesSorted fs).length →
       ∃ k, (edgesUniqueInverse fs)[i]? = some k ∧ (edgesUnique fs)[k]? = (edgesSorted fs)[i]?) := by
-  sorry
+  exact ⟨edgesUnique_nodup fs, mem_edgesUnique fs, edgesUnique_inverse fs⟩
 
 /-- Euler number = #referenced vertices − #distinct undirected edges + #faces -/
 theorem C05_euler (fs : List Face) (nV : Nat) :
     eulerNumber fs nV =
       (((List.range nV).filter (fun v => v ∈ corners fs)).length : Int)
         - (((edgesSorted fs).eraseDups).length : Int) + (fs.length : Int) := by
-  sorry
+  exact eulerNumber_eq fs nV
 
 /-- degree and incident faces by direct counting (one per occurrence of the vertex) -/
 theorem C05_vertex_faces (fs : List Face) (nV v : Nat) (hv : v < nV) :
@@ -67,13 +67,13 @@ theorem C05_vertex_faces (fs : List Face) (nV v : Nat) (hv : v < nV) :
     ∃ l, (vertexFaces fs nV)[v]? = some l ∧ l.length = (corners fs).count v ∧
       ∀ f, l.count f = ([(fs.getD f (nV, nV, nV)).1, (fs.getD f (nV, nV, nV)).2.1,
                          (fs.getD f (nV, nV, nV)).2.2]).count v := by
-  sorry
+  exact ⟨vertexDegree_getElem? fs nV v hv, vertexFaces_spec fs nV v hv⟩
 
 /-- neighbours: `w` is a neighbour of `v` iff `{v, w}` is an (undirected) edge of some face -/
 theorem C05_neighbors (fs : List Face) (nV v w : Nat) (hv : v < nV) :
     (∃ l, (vertexNeighbors fs nV)[v]? = some l ∧ l.Nodup ∧
       (w ∈ l ↔ sortEdge (v, w) ∈ edgesSorted fs)) := by
-  sorry
+  exact vertexNeighbors_spec fs nV v w hv
 
 /-- connectivity of nodes `< n` through the (undirected) edge list -/
 inductive Conn (n : Nat) (es : List (Nat × Nat)) : Nat → Nat → Prop where
@@ -86,7 +86,19 @@ inductive Conn (n : Nat) (es : List (Nat × Nat)) : Nat → Nat → Prop where
 theorem C05_components (n : Nat) (es : List (Nat × Nat)) (a b : Nat) (ha : a < n) (hb : b < n) :
     ((∃ g ∈ components n es 1, a ∈ g ∧ b ∈ g) ↔ Conn n es a b) ∧
     (components n es 1).flatten.count a = 1 := by
-  sorry
+  have key : ∀ x y, Conn n es x y ↔ Reach n es x y := by
+    intro x y
+    constructor
+    · intro h
+      induction h with
+      | refl => exact .refl _
+      | step _ he hb hc ih => exact .step ih he hb hc
+    · intro h
+      induction h with
+      | refl => exact .refl _
+      | step _ he hb hc ih => exact .step ih he hb hc
+  rw [key]
+  exact components_spec n es a b ha hb
 
 /-! non-vacuity: the hypotheses of the theorems above are only index bounds; concrete meshes
     (tetrahedron, cube, non-manifold fans) are evaluated through the driver in the correspondence run
